@@ -329,6 +329,55 @@ func main() {
 				o = Obs{Outcome: "err"}
 			}
 			out.Emit(In{Tag: "hash-commit", Kind: "hash-commit", Bid: toJ(b), Prims: []Prim{}, APITypes: apitypesBid(b, true)}, o)
+			if i%6 != 0 {
+				continue
+			}
+			// siblings through the same long-lived signer: the same bid with exactly one field
+			// changed (a re-bid with a fresh decay window, another block, another amount ...)
+			for k := 0; k < 5; k++ {
+				amt, blk, st, en := b.BidAmount, b.BlockNumber, b.DecayStartTimestamp, b.DecayEndTimestamp
+				tx2 := tx
+				switch k {
+				case 0:
+					st = g.i63(true)
+				case 1:
+					en = g.i63(true)
+				case 2:
+					blk = g.i63(true)
+				case 3:
+					amt = g.amount(true)
+				case 4:
+					tx2 = g.txHash()
+				}
+				sb, err := s.ConstructSignedBid(tx2, amt, blk, st, en)
+				if err != nil {
+					continue
+				}
+				out.Emit(In{Tag: "hash-bid-sibling", Kind: "hash-bid", Bid: toJ(sb), Prims: []Prim{}, APITypes: apitypesBid(sb, false)},
+					Obs{Outcome: "ok", Digest: hx(sb.Digest), Sig: hx(sb.Signature)})
+			}
+			// the same payload signed by another bidder, and the same bid with its recovery id
+			// written 0/1: same bid digest, other signature bytes — the commitment must cover the
+			// signature it is given
+			for k := 0; k < 2; k++ {
+				var ob *preconfpb.Bid
+				if k == 0 {
+					ob, err = other.ConstructSignedBid(tx, b.BidAmount, b.BlockNumber, b.DecayStartTimestamp, b.DecayEndTimestamp)
+					if err != nil {
+						continue
+					}
+				} else {
+					ob = cloneBid(b)
+					ob.Signature[64] -= 27
+				}
+				oc, err := s.ConstructPreConfirmation(ob)
+				if err != nil {
+					out.Emit(In{Tag: "hash-commit-same-digest", Kind: "hash-commit", Bid: toJ(ob), Prims: []Prim{}}, Obs{Outcome: "err"})
+					continue
+				}
+				out.Emit(In{Tag: "hash-commit-same-digest", Kind: "hash-commit", Bid: toJ(ob), Prims: []Prim{}, APITypes: apitypesBid(ob, true)},
+					Obs{Outcome: "ok", Digest: hx(oc.Digest), Sig: hx(oc.Signature)})
+			}
 		}
 		// the two Solidity vectors of the repository's own TestHashing
 		return
@@ -417,6 +466,24 @@ func main() {
 		})
 		mut("p-v-flip", func(x *preconfpb.Bid) { x.Signature[64] = 55 - x.Signature[64] })
 		mut("p-multi", func(x *preconfpb.Bid) { x.BlockNumber += 7; x.TxHash += "ab"; x.DecayEndTimestamp += 3 })
+		// a field changed, the digest recomputed for the new fields, the old signature kept
+		for _, f := range []func(x *preconfpb.Bid){
+			func(x *preconfpb.Bid) { x.BlockNumber++ },
+			func(x *preconfpb.Bid) { x.TxHash = x.TxHash + "00" },
+			func(x *preconfpb.Bid) { x.DecayEndTimestamp++ },
+			func(x *preconfpb.Bid) {
+				v, _ := new(big.Int).SetString(x.BidAmount, 10)
+				x.BidAmount = v.Add(v, big.NewInt(999)).String()
+			},
+		} {
+			f := f
+			mut("p-field-redigest", func(x *preconfpb.Bid) {
+				f(x)
+				if d, err := preconfsigner.GetBidHash(x); err == nil {
+					x.Digest = d
+				}
+			})
+		}
 		// value-preserving spellings (not perturbations of a value): only model agreement
 		np := func(tag string, f func(x *preconfpb.Bid)) {
 			x := cloneBid(b)
